@@ -74,8 +74,10 @@ def build_jobs(tier):
     texts += F.f_rule_siblings(ops, consts=(0, 1))[:: (4 if tier == "quick" else 1)]
     texts += F.f_rule_triples(both)[:: (4 if tier == "quick" else 1)]
     texts += F.deep_stack_blocks()
-    texts += F.f_rule_existing()[:: (8 if tier == "quick" else 1)]
+    texts += F.f_rule_existing()[:: (8 if tier == "quick" else 3)]
     texts += F.f_mem_consuming()
+    texts += F.f_rule_singles(ops, contexts=("both", "bothstore"))[:: (3 if tier == "quick" else 1)]
+    texts += F.f_rule_pairs(both, consts=[0, 1], contexts=("both",))[:: (6 if tier == "quick" else 1)]
     texts += F.f_mid_terminal()[:: (3 if tier == "quick" else 1)]
     # MSIZE observes memory expansion: removing a dead load or hash before it is visible
     texts += ["PUSH ffff MLOAD POP MSIZE", "MSIZE PUSH ffff MLOAD POP MSIZE", "DUP1 MLOAD POP MSIZE", "PUSH 20 DUP2 KECCAK256 POP MSIZE",
